@@ -74,6 +74,8 @@ def _value_chain(flow, name, at, base_syms):
 
 def rule_semiopen(ctx):
     ctx.rule("C01.semiopen", "T4 equivalence + def-use", "the test applied to a file [t0, t1] for find(S, E) is t0 < E and t1 >= S (1 us clock)")
+    from .C16 import ob_time_resolution
+    ob_time_resolution(ctx)
     from .C03 import TreeFacts
     T = TreeFacts(ctx)
     f = ctx.func(FILESET, "FileSet.find")
